@@ -233,6 +233,8 @@ func c03Shapes(w *core.W, j int) {
 				func(int) byte { return 'a' },
 				func(i int) byte { return "aB3-_zQ"[i%7] },
 				func(i int) byte { return []byte{'.', 'x', '\\', 0, 200, ' ', 'y', '"'}[i%8] },
+				func(i int) byte { return byte(1 + i%31) },     // every octet printed as \DDD: the longest possible text
+				func(i int) byte { return byte(0x7f + i%129) }, // likewise, high half
 			} {
 				n := nameWithLens(lens, fill)
 				if n.WireLen() != W {
